@@ -211,7 +211,7 @@ def run(tier, replay):
     for f in fails:
         hit = [k for k in KNOWN if k["match"](f)]
         if hit:
-            V.known_finding(hit[0]["text"])
+            V.known_finding(hit[0]["text"], hit[0].get("id"))
         else:
             new_fails.append(f)
     by_row = {(r["seed"], r["kind"]): r for r in rows}
